@@ -148,14 +148,7 @@ func ruleR14d(c *Check) {
 	}
 	if okLoop {
 		// the check command runs on every iteration
-		var bodyEntry *ssa.BasicBlock
-		for _, s := range lp.Header.Succs {
-			if lp.Body[s] {
-				bodyEntry = s
-			}
-		}
-		toHeader := func(in ssa.Instruction) bool { return in == lp.Header.Instrs[0] }
-		if reach, _ := engine.PathExists(fn, firstInstrBefore(bodyEntry), toHeader, engine.PathQuery{CutInstr: engine.IsInstr(runs[0])}); reach {
+		if lp.IterationCanSkip(engine.IsInstr(runs[0]), nil) {
 			okLoop = false
 			why = "an iteration of the loop over the checks can skip running the check command (conditional `continue`, memoised result): a check whose condition was destroyed is not re-evaluated"
 		}
